@@ -247,6 +247,13 @@ def _operand(e):
     return e
 
 
+def over_clause():
+    """OVER ( [PARTITION BY ..] [ORDER BY ..] ); the parenthesis may abut the keyword"""
+    return st.tuples(st.lists(expr(0), min_size=0, max_size=2), st.lists(expr(0), min_size=0, max_size=2)).map(
+        lambda t: seq(kw('OVER'), paren(seq(seq(kw('PARTITION'), kw('BY'), comma_list(t[0])) if t[0] else None,
+                                            seq(kw('ORDER BY'), comma_list(t[1])) if t[1] else None), tight=True, over_lp=True)))
+
+
 @functools.lru_cache(maxsize=None)
 def expr(depth=2):
     base = st.one_of(value_literal.map(lambda l: [l]), column_ref, column_ref, literal.map(lambda l: [l]))
@@ -254,9 +261,7 @@ def expr(depth=2):
         return base
     sub = expr(depth - 1)
     fn = st.sampled_from(FUNCS)
-    over = st.one_of(st.none(), st.none(), st.none(), st.tuples(st.lists(expr(0), min_size=0, max_size=2), st.lists(expr(0), min_size=0, max_size=2)).map(
-        lambda t: seq(kw('OVER'), paren(seq(seq(kw('PARTITION'), kw('BY'), comma_list(t[0])) if t[0] else None,
-                                            seq(kw('ORDER BY'), comma_list(t[1])) if t[1] else None), tight=True, over_lp=True))))
+    over = st.one_of(st.none(), st.none(), st.none(), over_clause())
     return st.one_of(
         base, base, base, base, base, base,
         st.tuples(sub, st.sampled_from(BINOPS), sub).map(lambda t: W('binop', seq(_operand(t[0]), opl(t[1]), tight_first(_operand(t[2]))))),
@@ -499,13 +504,15 @@ def statement(assign=False):
 @functools.lru_cache(maxsize=None)
 def case_heavy_select():
     """SELECT whose items are CASE expressions with AND/OR conditions (the general grammar reaches CASE in ~2% of cases)"""
-    c = st.one_of(cond(1), cond(1), cond(0))
+    andor = st.tuples(cond(0), st.sampled_from(['AND', 'OR']), cond(0)).map(lambda t: seq(t[0], kw(t[1], clause=True), t[2]))
+    c = weighted((2, cond(0)), (3, andor), (2, cond(1)))
     e = expr(0)
     case = st.tuples(st.one_of(st.none(), st.none(), e), st.lists(st.tuples(c, e), min_size=1, max_size=3), st.one_of(st.none(), e)).map(lambda t: case_expr(*t))
     # also: CASE / parenthesised conditions as one of several call arguments, and unary signs in front of an operand
     # (formatter properties only: the clause properties do not claim anything about unary operators)
     fn = st.sampled_from(FUNCS)
-    call = st.one_of(st.tuples(fn, case, e).map(lambda t: func_call(t[0], [t[1], t[2]])),
+    call = st.one_of(st.tuples(fn, e, over_clause()).map(lambda t: func_call(t[0], [t[1]], t[2])),          # window function
+                     st.tuples(fn, case, e).map(lambda t: func_call(t[0], [t[1], t[2]])),
                      st.tuples(fn, e, c).map(lambda t: func_call(t[0], [t[1], W('paren', paren(t[2]))])),
                      st.tuples(fn, e, fn, e, c).map(lambda t: func_call(t[0], [t[1], func_call(t[2], [t[3], W('paren', paren(t[4]))]), [L('num', '0')]])))
     signed = st.one_of(st.tuples(st.sampled_from(['-', '+']), column_ref).map(lambda t: seq(L('op', t[0]), tight_first(t[1]))),
